@@ -8,7 +8,7 @@
 //	                     count, surviving key ordinals newest-first, current marker) reached by
 //	                     histories of {generate/rotate, destroy-current, destroy-rotated(i)} of
 //	                     depth <= 3 (quick) / <= 4 (thorough) over 9 slots (storage pair, storage
-//	                     symmetric, search HMAC for clients alpha_1 and bravo_2; poison pair,
+//	                     symmetric, search HMAC for clients alpha_1, bravo_mac (+ symmetric and HMAC keys of svc.pub_mac); poison pair,
 //	                     poison symmetric, audit log), computed per format by BFS on real stores
 //	x selections       = each populated slot alone, neighbouring pairs of populated slots (plus
 //	                     first+last), everything ("all": no ids / all key rings)
@@ -55,7 +55,16 @@ import (
 
 // ---------------------------------------------------------------- space
 
-var universe = kslab.Slots(kslab.AllKinds, []string{kslab.Alpha, kslab.Bravo})
+// Client ids are chosen hostile to file-name parsing: the second client's id ends in characters of
+// the "_hmac" / "_sym" suffixes, the third one (symmetric and HMAC keys only: key pairs require
+// ids without dots) contains the public-key suffix ".pub".
+const (
+	Mac    = "bravo_mac"
+	Dotted = "svc.pub_mac"
+)
+
+var universe = append(kslab.Slots(kslab.AllKinds, []string{kslab.Alpha, Mac}),
+	kslab.Slot{Kind: kslab.StorageSym, Client: Dotted}, kslab.Slot{Kind: kslab.SearchHMAC, Client: Dotted})
 var zuluSlots = []kslab.Slot{{Kind: kslab.StoragePair, Client: Zulu}, {Kind: kslab.StorageSym, Client: Zulu}, {Kind: kslab.SearchHMAC, Client: Zulu}}
 var allSlots = append(append([]kslab.Slot(nil), universe...), zuluSlots...)
 
@@ -692,7 +701,7 @@ func main() {
 		perPath[path] = map[string]int{"source_states": done}
 		fmt.Fprintf(os.Stderr, "path %s: %d source states done, t=%v\n", path, done, time.Since(t0).Round(time.Millisecond))
 	}
-	r.Set("bounds", map[string]interface{}{"history_depth": depth, "full_byte_flip_depth": flipDepth, "flip_masks": fmt.Sprintf("%x", opt.masks), "sparse_flip_positions": opt.sparse, "slots": len(universe), "clients": 2, "cli_history_depth": cliDepth})
+	r.Set("bounds", map[string]interface{}{"history_depth": depth, "full_byte_flip_depth": flipDepth, "flip_masks": fmt.Sprintf("%x", opt.masks), "sparse_flip_positions": opt.sparse, "slots": len(universe), "clients": 3, "cli_history_depth": cliDepth})
 	r.Set("source_states", srcStats)
 	r.Set("per_path", perPath)
 	r.Rule("states = distinct (source canonical state, selection, mode, format path, target class) tuples, each executed once on the real code (source rebuilt by replaying the shortest history of its canonical state; canonical state = per slot generated count, surviving ordinals newest-first, current marker, read below the API); transitions = exports + import attempts (good and tampered) + verification reads; distinct_nontrivial = distinct (path, mode, selection class, target class, outcome) tuples plus distinct (path, mode, target, tamper outcome) tuples")
